@@ -182,12 +182,14 @@ def _agree(c, io, mo, ctx):
     if "nonfinite" in io:
         return None  # float overflow: outside the exact model (never generated on purpose)
     if "overflow" in io:
-        # OverflowError raised by float arithmetic: legitimate only when the exact magnitudes leave the float range
-        if "err" in mo:
-            return "impl raised OverflowError, the model rejects the operation: %s" % (mo,)
-        big = qparse(mo["M"])
+        # OverflowError: in the modelled code only `ratio ** exp` of the unit matching can raise it (float products
+        # overflow to inf silently).  Legitimate only when an exact magnitude really leaves the float range: the
+        # largest |ratio ** exp| of the matching ("F", reported also when the model stops at a later error such as
+        # a zero divisor) or the error-propagation magnitude M
+        big = max(qparse(mo.get("F", "0/1")), qparse(mo["M"]) if "M" in mo else 0)
         return None if big >= 10 ** 250 else \
-            "impl raised OverflowError although every exact magnitude stays below 1e250 (M=%.3g)" % float(big)
+            "impl raised OverflowError although every exact magnitude stays below 1e250 (F, M <= %.3g): model=%s" % (
+                float(big), {k: v for k, v in mo.items() if k in ("err", "v")})
     if "err" in io or "err" in mo:
         if ("err" in io) != ("err" in mo):
             return "one side fails: impl=%s model=%s" % (io, mo)
